@@ -197,6 +197,18 @@ func (s *sup) execute(exec, start *core.FuncDecl) {
 		sawCurrent := false
 		userCall := -1
 		var userErr *types.Var
+		userErrAlias := map[*types.Var]bool{} // locals/parameters that carry the routine's error on
+		isUserErr := func(e ast.Expr, ev *core.Event) bool {
+			if userErr == nil {
+				return false
+			}
+			for _, v := range []*types.Var{identVar(e, ev.Frame), aliasOf(p, ev, e)} {
+				if v != nil && (v == userErr || userErrAlias[v]) {
+					return true
+				}
+			}
+			return false
+		}
 		ownCancel := false
 		tampered := token.NoPos
 		for i, ev := range p.Events {
@@ -206,9 +218,18 @@ func (s *sup) execute(exec, start *core.FuncDecl) {
 			}
 			if ev.Kind == core.KAssign && !ev.FieldInit && userCall >= 0 {
 				if v := identVar(ev.Lhs, ev.Frame); v != nil && isErrorType(v.Type()) {
+					// the result of a helper walked in place that returns the routine's error carries it on
+					viaRet := false
+					if ev.RetEv != nil && userErr != nil {
+						if _, rv := retResult(ev.RetEv, ev.RhsIdx); rv != nil && (rv == userErr || userErrAlias[rv]) {
+							viaRet = true
+						}
+					}
 					if ev.Rhs != nil && unparen(ev.Rhs) == ast.Expr(p.Events[userCall].Call) {
 						userErr = v
-					} else if v == userErr {
+					} else if viaRet {
+						userErrAlias[v] = true
+					} else if v == userErr || userErrAlias[v] {
 						tampered = ev.Pos
 					}
 				}
@@ -223,7 +244,7 @@ func (s *sup) execute(exec, start *core.FuncDecl) {
 				}
 			}
 			if assignsField(ev, s.f("err"), "") && userCall >= 0 {
-				a.note("R12", name+"/records-routine-result", ev.Pos, tampered.IsValid() || userErr == nil || identVar(ev.Rhs, ev.Frame) != userErr,
+				a.note("R12", name+"/records-routine-result", ev.Pos, tampered.IsValid() || userErr == nil || !isUserErr(ev.Rhs, ev),
 					"the error recorded (and reported to the exit callbacks) is the value the routine returned",
 					"after the routine returned, its error is reassigned ("+c.Prog.Pos(tampered)+") or replaced before it is recorded: WaitExited and the exit callbacks report something else than what the routine returned", p)
 			}
@@ -251,7 +272,7 @@ func (s *sup) execute(exec, start *core.FuncDecl) {
 			// deferred or called, wherever they are called from) is handed the routine's own result
 			if (ev.Kind == core.KDefer || ev.Kind == core.KCall) && ev.Callee == nil && ev.Builtin == "" && ev.FunVal.Kind == core.VUnknown && userCall >= 0 && i > userCall && len(ev.Call.Args) == 1 && !callsField(ev, s.f("routine")) {
 				if t := ev.Frame.Info().TypeOf(ev.Call.Args[0]); t != nil && isErrorType(t) {
-					a.note("R12", name+"/exit-callbacks/argument", ev.Pos, userErr == nil || tampered.IsValid() || identVar(ev.Call.Args[0], ev.Frame) != userErr,
+					a.note("R12", name+"/exit-callbacks/argument", ev.Pos, userErr == nil || tampered.IsValid() || !isUserErr(ev.Call.Args[0], ev),
 						"the exit callbacks are handed the error the routine returned",
 						"an exit callback is handed "+core.ExprString(ev.Call.Args[0])+", not the value the routine returned: a field read after the critical section can already belong to the next attempt", p)
 				}
@@ -406,6 +427,7 @@ func (s *sup) api(start, exec *core.FuncDecl) {
 			cancelCalls := 0
 			ctxStored := map[*types.Var]bool{} // locals stored into the container ctx on this path
 			ctxStoredTerm := map[string]bool{}
+			ctxLoaded := map[*types.Var]int{} // locals that hold the value read from the container ctx field
 			var retryStops []int
 			started, detached, rearmed := false, false, false
 			var lookupOK *types.Var // the comma-ok variable of the latest lookup in the slot
@@ -442,6 +464,33 @@ func (s *sup) api(start, exec *core.FuncDecl) {
 							"the success flag is cleared on a path from "+e.Name+" that is not inside a forced start and has not shown the flag false: a later start(…, false) — SetContext after ClearContext, a context swap — runs a routine that had returned nil again", p)
 					}
 				}
+				// a local loaded from the container's ctx field (directly, or as the result of a helper
+				// walked in place) stands for the field while the field is not written and the lock is held
+				if ev.Kind == core.KAssign && !ev.FieldInit {
+					if lv := identVar(ev.Lhs, ev.Frame); lv != nil && !lv.IsField() {
+						delete(ctxLoaded, lv)
+						src, sfr := ev.Rhs, ev.Frame
+						if ev.RetEv != nil {
+							if re, _ := retResult(ev.RetEv, ev.RhsIdx); re != nil {
+								src, sfr = re, ev.RetEv.Frame
+							}
+						}
+						if src != nil && (ev.RhsIdx < 0 || ev.RetEv != nil) {
+							if fv := fieldVar(src, sfr); fv != nil && core.FieldName(fv) == s.ctxFld {
+								ctxLoaded[lv] = i
+							} else if sv := identVar(src, sfr); sv != nil {
+								if at, ok := ctxLoaded[sv]; ok {
+									ctxLoaded[lv] = at
+								}
+							}
+						}
+					}
+				}
+				if assignsField(ev, s.ctxFld, "") {
+					for k := range ctxLoaded {
+						delete(ctxLoaded, k)
+					}
+				}
 				if assignsField(ev, s.ctxFld, "") && ev.Rhs != nil {
 					if v := identVar(ev.Rhs, ev.Frame); v != nil {
 						ctxStored[v] = true
@@ -461,6 +510,11 @@ func (s *sup) api(start, exec *core.FuncDecl) {
 					}
 					if v := identVar(arg0, ev.Frame); v != nil && (ctxStored[v] || ctxStored[aliasOf(p, ev, arg0)] || ctxStoredTerm[g.builderAt(i).varTerm(v, ev.Frame)]) {
 						fromCtx = true
+					}
+					for _, v := range []*types.Var{identVar(arg0, ev.Frame), aliasOf(p, ev, arg0)} {
+						if at, ok := ctxLoaded[v]; ok && v != nil && g.sec[at] == g.sec[i] && g.sec[i] >= 0 {
+							fromCtx = true
+						}
 					}
 					a.note("R12", site+"/current-context", ev.Pos, !fromCtx,
 						"start is handed the container's current context",
@@ -867,6 +921,19 @@ func (s *sup) keyedExtras() {
 					refsRole := "?refs"
 					if v := localWhere(d, d.Decl, func(v *types.Var, _ *ast.Ident) bool { _, ok := v.Type().Underlying().(*types.Slice); return ok }); v != nil {
 						refsRole = c.Role(v)
+					}
+					// the local copy of the key's reference list: the slice read from the table on this path
+					// (in Release itself or in the helper that holds its critical section)
+					for _, b := range p.Events[:i] {
+						if b.Kind == core.KAssign && !b.FieldInit && b.Rhs != nil {
+							if ix, ok := unparen(b.Rhs).(*ast.IndexExpr); ok {
+								if fv := fieldVar(ix.X, b.Frame); fv != nil && core.FieldName(fv) == "keyed.KeyedRefCount.refs" {
+									if lv := identVar(b.Lhs, b.Frame); lv != nil && !lv.IsField() {
+										refsRole = c.Role(lv)
+									}
+								}
+							}
+						}
 					}
 					a.requireGuard("R12", name+"/remove-when-last", g, i, false, eq("0", "len("+refsRole+")"), "removing the key from Release")
 				}
